@@ -1,10 +1,32 @@
 """C02  Closed-system conservation of elements and charge in reaction steps.
 
 Shape H: breadth-first exploration of op histories on one cell.  One op = one reaction-step simulation applied to the
-evolving cell (reactants numbered 1, second solution 2), executed on the real library either with USE ... SAVE or with
-RUN_CELLS so that the products feed the next op.  After every transition the element/charge inventory of the cell,
-computed by mc/oracles/raw.py from the text of `DUMP -all` (formulas from the database text), must equal the inventory
-before the step plus what the REACTION stoichiometry / the MIX fractions of the op's own input text add.
+evolving cell (reactants numbered 1, second - charge-imbalanced - solution 2), executed on the real library either with
+USE ... SAVE or with RUN_CELLS so that the products feed the next op.  After every transition the element/charge
+inventory of the cell, computed by mc/oracles/raw.py from the text of `DUMP -all` (formulas from the database text),
+must equal the inventory before the step plus what the REACTION stoichiometry / the MIX fractions of the op's own input
+text add (relative 1e-6 of the element's inventory), and no phase / gas component / exchanger / kinetic amount may be
+negative.  Only runs with return code 0 are judged (R2).
+
+Enumeration: alphabet() = 43 ops (REACTION of 6 reactants x {1 step, 3 listed amounts incremental, 3 listed amounts
+cumulative} + {NaCl, CaCO3} x "amount in 3 steps" {cumulative, incremental}; 2 MIX; 18 attach/replace ops over the six
+reactant kinds incl. 8 surface variants; REACTION_TEMPERATURE) x 2 execution modes x 2 initial cells (solutions only /
+one reactant of every kind); BFS to depth 2 (quick) or 3 (thorough, + depth 4 over the 10 first attach ops), next level
+= the distinct (canonical dump, 12 digits) completed states of the previous one.  The deadline is looked at between
+bounds only (a level; a big level is cut into one sub-bound per first op).
+
+Calibration (R5) - one correction of the oracle's model, no sub-claim dropped:
+  * A surface with a constant-thickness diffuse layer (-donnan / -diffuse_layer) that was defined explicitly (no
+    -equilibrate) is dumped, before its first step, with `-mass_water 0` and an empty `-diffuse_layer_totals`; after the
+    first step the layer holds thickness x area kg of water (0.006 kg here) while the solution keeps its water.  The
+    first version of this check called that "H,O created".  The manual (PHREEQC-2 eq. 75-76, notation W_bulk/W_s) makes
+    the layer's water an attribute of the surface fixed by the input (W_s = t A_s, part of the water of the system),
+    exactly as it comes with an -equilibrate surface out of the initial-surface calculation; what happens in the first
+    step is the initialisation of the dump's bookkeeping, not a transfer.  The inventory *before* the first step of such
+    a surface therefore contains W_s (pending_dl_water(); computed from the dump's own area, mass and thickness and the
+    element weights of the database).  If the engine took that water from the solution instead, or created any other
+    amount, the check alarms.  With `-donnan debye_lengths` the layer's water is a fraction of the bulk water and the
+    engine takes it from the solution: nothing is added there (and the check confirms conservation).
 """
 import os
 
@@ -44,7 +66,7 @@ SOLUTION 2
  Na 1
  K 2
  Mg 0.5
- Cl 4 charge
+ Cl 3.5
  -water 0.5
 END
 """,
@@ -64,6 +86,8 @@ ATTACH = {
     "su:dl-equil": ("su", "SURFACE 1\n" + SURF_SITES % ("", "") + " -equilibrate 1\n -diffuse_layer 1e-8\n"),
     "su:donnan-equil": ("su", "SURFACE 1\n" + SURF_SITES % ("", "") + " -equilibrate 1\n -donnan\n"),
     "su:donnan-new": ("su", "SURFACE 1\n" + SURF_SITES % ("OH", "OH") + " -donnan\n"),
+    "su:dl-new": ("su", "SURFACE 1\n" + SURF_SITES % ("OH", "OH") + " -diffuse_layer 1e-8\n"),
+    "su:debye-new": ("su", "SURFACE 1\n" + SURF_SITES % ("OH", "OH") + " -donnan debye_lengths 1\n"),
     "ga:fixP": ("ga", "GAS_PHASE 1\n -fixed_pressure\n -pressure 1.0\n -volume 1.0\n -temperature 25\n CO2(g) 0.01\n N2(g) 0.99\n"),
     "ga:fixV": ("ga", "GAS_PHASE 1\n -fixed_volume\n -volume 0.5\n -temperature 25\n CO2(g) 0.05\n N2(g) 0.5\n O2(g) 0.1\n"),
     "ss:ideal": ("ss", "SOLID_SOLUTIONS 1\n CaSrCO3\n -comp Calcite 0.001\n -comp Strontianite 0.0001\n"),
@@ -85,11 +109,15 @@ REACTANTS = {            # name -> (stoichiometry lines, unit amount, units word
     "CaCO3": ([("CaCO3", 1.0)], 1.0, "mmol"),
     "H2O-": ([("H2O", -1.0)], 5.0, "moles"),
 }
-STEPFORMS = {            # name -> (fractions of the unit amount, INCREMENTAL_REACTIONS)
+STEPFORMS = {            # name -> (fractions of the unit amount, INCREMENTAL_REACTIONS); "in3*": "<amount> in 3 steps"
     "1": ([1.0], False),
     "3inc": ([0.2, 0.3, 0.5], True),
     "3cum": ([0.2, 0.5, 1.0], False),
+    "in3": ("in", False),
+    "in3inc": ("in", True),
 }
+IN_STEPS = 3
+IN_REACTANTS = ("NaCl", "CaCO3")       # the "in 3 steps" forms are enumerated for these reactants only
 MIXES = {"mix:half": {1: 0.5, 2: 0.5}, "mix:1+q2": {1: 1.0, 2: 0.25}}
 UNITS = {"mmol": 1e-3, "moles": 1.0}
 
@@ -98,7 +126,8 @@ def alphabet(sub="all"):
     ops = []
     for r in REACTANTS:
         for f in STEPFORMS:
-            ops.append("rx:%s:%s" % (r, f))
+            if not f.startswith("in3") or r in IN_REACTANTS:
+                ops.append("rx:%s:%s" % (r, f))
     ops += sorted(MIXES)
     ops += list(ATTACH)
     ops.append("temp:60")
@@ -123,12 +152,16 @@ def op_texts(op, mode, present, kin):
         _, r, f = op.split(":")
         stoich, unit, units = REACTANTS[r]
         fr, inc = STEPFORMS[f]
-        amounts = [unit * x for x in fr]
         lines.append("REACTION 1")
         for name, coef in stoich:
             lines.append(" %s %s" % (name, fmt(coef)))
-        lines.append(" " + " ".join(fmt(a) for a in amounts) + " " + units)
-        spec.update(reaction={"stoich": stoich, "amounts": [a * UNITS[units] for a in amounts]}, incremental=inc, rsteps=len(amounts))
+        if fr == "in":
+            lines.append(" %s %s in %d steps" % (fmt(unit), units, IN_STEPS))
+            spec.update(reaction={"stoich": stoich, "in_steps": IN_STEPS, "amount": unit * UNITS[units]}, incremental=inc, rsteps=IN_STEPS)
+        else:
+            amounts = [unit * x for x in fr]
+            lines.append(" " + " ".join(fmt(a) for a in amounts) + " " + units)
+            spec.update(reaction={"stoich": stoich, "amounts": [a * UNITS[units] for a in amounts]}, incremental=inc, rsteps=len(amounts))
     elif op in MIXES:
         lines.append("MIX 1")
         for k, v in sorted(MIXES[op].items()):
@@ -160,10 +193,18 @@ def expected_additions(spec, db):
     rx = spec["reaction"]
     if rx is None:
         return add
-    am = rx["amounts"]
     n = spec["nsteps"]
-    per_step = [am[min(i, len(am) - 1)] for i in range(n)]
-    total = sum(per_step) if spec["incremental"] else per_step[-1]
+    if "in_steps" in rx:
+        # "<amount> in k steps": after k steps the amount has been added once, whether the steps are cumulative fractions of
+        # it (default) or k increments of amount/k (INCREMENTAL_REACTIONS true).  No other reactant of this alphabet defines
+        # more than k steps, so the manual's rule for additional steps is never needed here.
+        if n != rx["in_steps"]:
+            raise RuntimeError("the alphabet must not define more steps than 'in %d steps'" % rx["in_steps"])
+        total = rx["amount"]
+    else:
+        am = rx["amounts"]
+        per_step = [am[min(i, len(am) - 1)] for i in range(n)]
+        total = sum(per_step) if spec["incremental"] else per_step[-1]
     for name, coef in rx["stoich"]:
         elts, z = db.reactant_elts(name)
         for e, v in elts.items():
@@ -174,9 +215,66 @@ def expected_additions(spec, db):
 
 STATED_KINDS = ("phase", "gas", "exchanger", "kinetic")     # the reactant amounts the statement names
 
+_gfw_cache = {}
+
+
+def water_gfw(path):
+    """g/mol of H2O from the element weights of the database text (SOLUTION_MASTER_SPECIES: element, species, alk,
+    gfw formula, element gfw)."""
+    if path not in _gfw_cache:
+        w = {}
+        on = False
+        with open(path, encoding="latin-1") as f:
+            for line in f:
+                t = line.split("#")[0].split()
+                if not t:
+                    continue
+                if t[0].upper() == "SOLUTION_MASTER_SPECIES":
+                    on = True
+                    continue
+                if on and t[0].isupper() and "_" in t[0] and len(t[0]) > 6:
+                    break                                         # next keyword
+                if on and t[0] in ("H", "O") and len(t) >= 5 and t[0] not in w:
+                    w[t[0]] = float(t[4])
+        if set(w) != {"H", "O"}:
+            raise RuntimeError("element weights of H and O not found in %s" % path)
+        _gfw_cache[path] = 2.0 * w["H"] + w["O"]
+    return _gfw_cache[path]
+
+
+def pending_dl_water(blocks, gfw, n=1):
+    """Diffuse-layer water of a surface that has been read but never taken part in a calculation.
+
+    Manual (PHREEQC-2, eq. 75-76 and notation; unchanged in version 3): with an explicit diffuse-layer calculation
+    (-diffuse_layer / -donnan with a constant thickness) every surface s carries W_s = t * A_s kg of water (1 L = 1 kg),
+    and W_bulk = W_aq + sum W_s is the water of the system.  W_s is fixed by the input (thickness x specific area x mass),
+    not by a reaction.  The dump of a surface that was defined explicitly (no -equilibrate) and has not reacted yet
+    (`-new_def 1`) shows `-mass_water 0` and an empty `-diffuse_layer_totals`: the bookkeeping of the layer is only
+    initialised by the first calculation the surface takes part in (for -equilibrate surfaces that is the initial
+    surface calculation, for explicitly defined ones the first reaction step).  The inventory *before* such a step
+    therefore contains the layer's water as the manual prescribes it.  With `debye_lengths` the thickness is not an
+    input constant and the layer's water is a fraction of the bulk water (taken from the solution): nothing is added.
+    -> ({"H":..,"O":..} or {}, kg)"""
+    b = blocks.get(("SURFACE_RAW", n))
+    if b is None or float(b.get("dl_type", 0)) == 0 or float(b.get("new_def", 0)) != 1 or float(b.get("debye_lengths", 0)) > 0:
+        return {}, 0.0
+    w = 0.0
+    for c in b.get("charge_component", {}).values():
+        if float(c.get("mass_water", 0.0)) == 0.0 and not c.get("diffuse_layer_totals"):
+            w += float(c["specific_area"]) * float(c["grams"]) * float(b["thickness"]) * 1000.0
+    if w == 0.0:
+        return {}, 0.0
+    return {"H": 2.0 * w * 1000.0 / gfw, "O": w * 1000.0 / gfw}, w
+
 
 def judge(op, spec, before_blocks, after_blocks, db, problems, diags, tag):
     inv0 = raw.inventory(before_blocks, db, 1, spec["mix"])
+    dlw, kg = pending_dl_water(before_blocks, water_gfw(phr.dbpath(DBNAME)))
+    for e, v in dlw.items():
+        inv0[e] = inv0.get(e, 0.0) + v
+    if kg:
+        diags.append("note: a never-reacted surface with a constant-thickness diffuse layer enters its first step: its layer water "
+                     "(thickness x area = %.6g kg, manual eq. 76) is counted in the inventory before the step (%s)" % (kg, op))
     inv1 = raw.inventory(after_blocks, db, 1, None)
     add = expected_additions(spec, db)
     exp = dict(inv0)
@@ -247,22 +345,45 @@ def reactant_signature(blocks):
     return "+".join(kinds) or "solution"
 
 
+_PART_KIND = (("solution", "solution"), ("exchange", "ex"), ("surface-charge", "dl"), ("surface", "su"), ("gas", "ga"), ("phase", "pp"),
+              ("solid-solution", "ss"), ("kinetics", "ki"))
+
+
+def part_kind(name):
+    for prefix, short in _PART_KIND:
+        if name.startswith(prefix + " "):
+            return short
+    return "?"
+
+
 def classify(op, spec, bad, before_blocks, after_blocks, db):
-    """Fingerprint = mechanism: which elements are not conserved, in which kind of op, with which reactant kinds in the
-    cell; plus one recognised special mechanism (diffuse-layer water of a new surface)."""
+    """Fingerprint = mechanism: which elements are not conserved, in which kind of op, and between which kinds of
+    reactants these elements moved in the step (reactants of the cell whose content of the elements did not change are
+    left out, so that one dropped term gives one line however many idle reactants the cell holds)."""
     lines = ["%-7s expected %.15g  found %.15g  (relative %.3g)" % (e, a, b, r) for e, (a, b, r) in sorted(bad.items())]
     what = "inventory after the step differs from inventory before + additions (tolerance %g):\n  " % TOL + "\n  ".join(lines)
-    su0, su1 = before_blocks.get(("SURFACE_RAW", 1)), after_blocks.get(("SURFACE_RAW", 1))
-    if su0 is not None and su1 is not None and set(bad) <= {"H", "O"}:
-        dl0 = sum(sum(abs(v) for v in (c.get("diffuse_layer_totals") or {}).values()) for c in su0.get("charge_component", {}).values())
-        dl1 = {e: sum((c.get("diffuse_layer_totals") or {}).get(e, 0.0) for c in su1.get("charge_component", {}).values()) for e in ("H", "O")}
-        if dl0 == 0.0 and dl1["H"] > 0 and all(0 < bad[e][1] - bad[e][0] <= dl1[e] * (1 + 1e-6) for e in bad):
-            w = sum(float(c.get("mass_water", 0.0)) for c in su1.get("charge_component", {}).values())
-            what += ("\nthe surface had no diffuse-layer composition before the step (defined explicitly, never equilibrated); after the step its "
-                     "diffuse layer holds %.6g kg water (H %.9g, O %.9g mol) that was not taken from the solution" % (w, dl1["H"], dl1["O"]))
-            return "created H,O: diffuse-layer water of a surface in its first step", what
+    p0 = raw.parts(before_blocks, db, 1, spec["mix"])
+    p1 = raw.parts(after_blocks, db, 1, None)
+    k0, k1 = {}, {}
+    for src, dst in ((p0, k0), (p1, k1)):
+        for name, acc in src.items():
+            d = dst.setdefault(part_kind(name), {})
+            for e, v in acc.items():
+                d[e] = d.get(e, 0.0) + v
+    moved = []
+    for kind in sorted(set(k0) | set(k1)):
+        for e, (a, b, r) in bad.items():
+            scale = max(abs(a), abs(b))
+            if abs(k1.get(kind, {}).get(e, 0.0) - k0.get(kind, {}).get(e, 0.0)) > 1e-9 * scale:
+                moved.append(kind)
+                break
+    what += "\nper reactant kind (before -> after) of the elements above:"
+    for kind in sorted(set(k0) | set(k1)):
+        what += "\n  %-9s" % kind + "  ".join("%s %.12g -> %.12g" % (e, k0.get(kind, {}).get(e, 0.0), k1.get(kind, {}).get(e, 0.0)) for e in sorted(bad))
     opkind = op.split(":")[0]
-    return "not-conserved %s op=%s cell=%s" % (",".join(sorted(bad)), opkind if opkind != "rx" else "rx:" + op.split(":")[1], reactant_signature(after_blocks)), what
+    if opkind == "rx":
+        opkind = "rx:" + op.split(":")[1] + ("/incremental" if spec["incremental"] else "")
+    return "not-conserved %s op=%s moved-between=%s" % (",".join(sorted(bad)), opkind, "+".join(moved) or "none"), what
 
 
 # ------------------------------------------------------------------------------------------------ running one history
@@ -362,33 +483,53 @@ def explore_level(cases, ev, findings, pool, deadline, stats):
             if len(res["case"]["ops"]) >= 2 or res["case"]["init"] != "plain":
                 ev.sample(res["sample"], limit=4)
         for d in res.get("diagnostics", ()):
+            if d.startswith("note: "):
+                stats["dl_first_step"] += 1
+                if stats["dl_first_step"] > 2:
+                    continue
+            else:
+                stats["diag"] += 1
             ev.diag(d)
-            stats["diag"] += 1
         for fp, what in res["problems"]:
             cand.setdefault(fp, (res["case"], what, res.get("script", "")))
-        if deadline.passed():
-            complete = False
-            break
     for fp in sorted(cand):
+        if fp in stats["reported"]:
+            continue                                   # already reported from a shallower (simpler) level
         case, what, script = cand[fp]
         ok = list(pool.map(core._confirm, [(run_case, case, fp)]))[0]
         if ok:
+            stats["reported"].add(fp)
             findings.report(fp, what, core.case_text(case, script))
         else:
             ev.diag("unconfirmed candidate (did not reproduce twice in fresh processes): %s" % fp)
     return complete, results
 
 
+SPLIT = 2500        # a level with more histories than this is cut into one sub-bound per first op (deadline granularity)
+
+
 def bfs(name, init, mode, ops, depth, ev, findings, pool, deadline, stats):
-    """Bound-major BFS: level k = every completed, distinct state of level k-1 extended by every op."""
+    """Bound-major BFS: level k = every completed, distinct state of level k-1 extended by every op.  The deadline is
+    looked at only between bounds (a level, or for a big level the sub-bound of all histories that start with one op)."""
     frontier = [()]
     for k in range(1, depth + 1):
         cases = [{"init": init, "mode": mode, "ops": list(seq) + [op]} for seq in frontier for op in ops]
-        bname = "%s: init=%s mode=%s depth %d (%d histories over %d ops)" % (name, init, mode, k, len(cases), len(ops))
-        if deadline.passed():
-            ev.bound(bname, False, cases=len(cases))
-            return False
-        complete, results = explore_level(cases, ev, findings, pool, deadline, stats)
+        lname = "%s: init=%s mode=%s depth %d" % (name, init, mode, k)
+        if len(cases) > SPLIT:
+            groups = [("%s, histories starting with %s" % (lname, o), [c for c in cases if c["ops"][0] == o]) for o in ops]
+            groups = [g for g in groups if g[1]]
+        else:
+            groups = [(lname, cases)]
+        results = []
+        for gi, (gname, gcases) in enumerate(groups):
+            bname = "%s (%d histories over %d ops)" % (gname, len(gcases), len(ops))
+            if deadline.passed():
+                ev.bound(bname, False, cases=len(gcases), not_started=len(groups) - gi)
+                return False
+            _, res = explore_level(gcases, ev, findings, pool, deadline, stats)
+            results += res
+            if len(groups) > 1:
+                ev.bound(bname, True, cases=len(gcases), completed_histories=sum(1 for r in res if not r.get("not_completed")))
         seen, nxt, dup = set(), [], 0
         for res in results:
             if res.get("not_completed"):
@@ -398,9 +539,8 @@ def bfs(name, init, mode, ops, depth, ev, findings, pool, deadline, stats):
                 continue
             seen.add(res["key"])
             nxt.append(tuple(res["case"]["ops"]))
-        ev.bound(bname, complete, cases=len(cases), completed_histories=len(nxt) + dup, distinct_states=len(nxt), duplicates_pruned=dup)
-        if not complete:
-            return False
+        ev.bound("%s (%d histories over %d ops)" % (lname, len(cases), len(ops)), True, cases=len(cases), completed_histories=len(nxt) + dup,
+                 distinct_states=len(nxt), duplicates_pruned=dup)
         frontier = nxt
     return True
 
@@ -416,9 +556,13 @@ def run(tier):
         "manual: REACTION amounts are cumulative unless INCREMENTAL_REACTIONS true; the last amount is re-used when KINETICS defines more steps than REACTION",
         "charge tolerance: 1e-6 x max(|net charge|, sum of the inventories of all elements other than H and O) (the statement gives no scale for charge)",
         "a step is judged from the two dumps only; intermediate reaction steps of one simulation are not observable in the dump and are not judged",
+        "manual eq. 76: a surface with a constant-thickness diffuse layer carries W_s = thickness x specific area x mass x 1000 kg of water from its definition on; "
+        "the dump of a never-reacted (-new_def 1) explicitly defined surface shows -mass_water 0, so W_s (H = 2 W_s/gfw, O = W_s/gfw, gfw of H2O from the database's "
+        "element weights) is added to the inventory before its first step; with debye_lengths > 0 nothing is added",
+        "dump convention: SURFACE_RAW -dl_type 0 = no explicit diffuse layer; -new_def 1 = read but not yet used in a calculation; -thickness in m, -specific_area in m2/g, -grams in g",
     ]
     pool = core.Pool()
-    stats = {"completed": 0, "not_completed": 0, "worst": 0.0, "cells": {}, "nc_samples": [], "diag": 0}
+    stats = {"completed": 0, "not_completed": 0, "worst": 0.0, "cells": {}, "nc_samples": [], "diag": 0, "reported": set(), "dl_first_step": 0}
     allops = alphabet()
     if tier == "quick":
         dl = core.Deadline(150)
@@ -441,6 +585,7 @@ def run(tier):
     ev.extra["worst_relative_residual_of_conserved_transitions"] = stats["worst"]
     ev.extra["judged_transitions_by_cell_composition"] = dict(sorted(stats["cells"].items()))
     ev.extra["sys_crosscheck_diagnostics"] = stats["diag"]
+    ev.extra["first_steps_of_a_never_reacted_constant_thickness_diffuse_layer_surface"] = stats["dl_first_step"]
     if total and stats["completed"] < 0.5 * total:
         raise SystemExit("C02: only %d of %d histories completed - the check is broken" % (stats["completed"], total))
     if total > 50 and len(ev.outcomes) < 20:
